@@ -21,15 +21,17 @@ NB = "NanoVerif.Bundle."
 NE = "NanoVerif.Ellipsoid."
 OBLIGATIONS = []   # filled in below (kept next to the theorem list)
 TRUSTED = [
-    "Lean 4.33.0 kernel; single Mathlib modules (Ring, Linarith, Positivity, ordered-field basics) only in Proofs/ and Props/",
+    "Lean 4.33.0 kernel; single Mathlib modules (Mathlib.Algebra.Order.Field.Basic, Tactic.Ring, Tactic.Linarith, Tactic.NormNum, "
+    "Algebra.Order.Field.Rat; Analysis.Real.Sqrt only for the non-vacuity examples over the reals) only in Proofs/ and Props/",
     "axioms: at most propext, Classical.choice, Quot.sound (audited per theorem on every run)",
     "hand-written generic-scalar models NanoVerif/Model/Bundle.lean (bundle.cpp append/moveto/delete/aggregate, bundle.h smeared "
     "quantities, econverged/sconverged, csearch.cpp loop body) and Model/Ellipsoid.lean (ellipsoid.cpp 1-D branch, deep-cut update, "
     "stopping tests); tied to the code by trace replay: harness/c03.cpp runs rqb/fpba1/fpba2/ellipsoid with the NANO_VERIF trace "
     "sink installed, driver_c03 replays every logged append / solve / csearch pass / ellipsoid update from the logged pre-state",
     "ORACLES of the model (contracts are hypotheses of the theorems, monitored on every trace): the objective returns true "
-    "sub-gradients; bundle_t::solve returns a point of the simplex (|sum-1| <= 1e-9, alpha >= -1e-12); for n >= 2 the deep-cut "
-    "update keeps the minimiser inside the ellipsoid (Loewner-John), not proved",
+    "sub-gradients; bundle_t::solve returns a point of the simplex for >= 3 rows (|sum-1| <= 1e-9, alpha >= -1e-12; proved for 1 and 2 "
+    "rows: solve1_simplex, solve2_simplex); std::nth_element meets its contract (NthElement); for n >= 2 the deep-cut update keeps "
+    "the minimiser inside the ellipsoid (Loewner-John), not proved",
     "Lean Float = g++ double for + - * / sqrt evaluated in the same order; Eigen reductions compared with tolerance",
     "tools/props/c03.py generator + independent python evaluation of f, of the two inequalities and of the lower-bound hypothesis; "
     "harness/c03.cpp; g++/libstdc++/Eigen",
@@ -58,6 +60,8 @@ RT = 1e-9
 
 OBLIGATIONS = [NB + t for t in [
     "aggregate_valid", "kept_valid", "reduce_kept", "appendStep_valid", "bundle_lower_bound_invariant", "appendFull_valid",
+    "appendFull_step", "solve1_simplex", "solve2_simplex", "append_stays_below_capacity", "append_stays_below_capacity_nth",
+    "dot_self_nonneg",
     "cauchy_schwarz", "bundle_stop_certificate", "csearch_converged_iff", "solver_converged_certificate",
 ]] + [NE + t for t in [
     "ellipsoid_stop_certificate", "ellipsoid_converged_certificate", "ellipsoid_early_certificate", "best_le",
@@ -178,7 +182,7 @@ def window(rng, c, tier):
     k = rng.below(10)
     c["wmode"] = 0 if k < 3 else (1 if k < 7 else 2)
     c["wfrac"] = rng.unit()
-    c["budget"] = rng.choice([3000, 8000, 20000]) if tier == "quick" else rng.choice([8000, 20000, 50000])
+    c["budget"] = rng.choice([3000, 8000, 20000])
 
 
 def gen_bundle(rng, tier, solver=None):
@@ -224,7 +228,7 @@ def gen(rng, tier):
     cp = os.path.join(vlib.VERIF, "corpus", "C03", "ops.txt")
     if os.path.exists(cp):
         ops += [l.strip() for l in open(cp) if l.strip() and not l.startswith("#")]
-    nb, ne = (300, 150) if tier == "quick" else (2400, 1200)
+    nb, ne = (600, 300) if tier == "quick" else (1500, 750)
     for solver in ["rqb", "fpba1", "fpba2"]:
         for _ in range(nb // 3):
             ops.append(gen_bundle(rng, tier, solver))
@@ -268,6 +272,26 @@ def parse_res(res):
 
 
 _INFO = {}
+_QMAX = [0.0]
+
+
+def quad_inv(H, n, d):
+    """d' H^-1 d by Gaussian elimination with partial pivoting; None when H is numerically singular"""
+    A = [H[i * n:(i + 1) * n] + [d[i]] for i in range(n)]
+    scale = max(abs(v) for v in H) or 1.0
+    for c in range(n):
+        p = max(range(c, n), key=lambda r: abs(A[r][c]))
+        if abs(A[p][c]) <= 1e-13 * scale:
+            return None
+        A[c], A[p] = A[p], A[c]
+        for r in range(c + 1, n):
+            m = A[r][c] / A[c][c]
+            for k in range(c, n + 1):
+                A[r][k] -= m * A[c][k]
+    u = [0.0] * n
+    for r in range(n - 1, -1, -1):
+        u[r] = (A[r][n] - sum(A[r][k] * u[k] for k in range(r + 1, n))) / A[r][r]
+    return sum(a * b for a, b in zip(d, u))
 
 
 def op_of(aug):
@@ -338,6 +362,7 @@ def oracle(aug, res):
     zs = test_points(case)
     fz = [fval(case, z) for z in zs]
     begin = None
+    inside = ell and dist(case["x0"], case["xs"]) <= case["R"]
     for tag, v in recs:
         rd = Rd(v)
         if tag == "bundle.append.begin":
@@ -380,6 +405,22 @@ def oracle(aug, res):
             why = lb_violation(case, zs, fz, xc, f, g, 0.0, "ellipsoid: (g, f) at x")
             if why:
                 return why
+            # the containment hypothesis of the certificates, monitored: x* in E(x_k, H_k)
+            # (n >= 2: (x*-x)' H^-1 (x*-x) <= 1, the Loewner-John step is not proved; n = 1: |x*-x| <= 2 H, proved)
+            if inside:
+                H = rd.l()
+                dv = [a - b for a, b in zip(case["xs"], xc)]
+                if n == 1:
+                    # once H drops below the spacing of the doubles around x the centre cannot move any more: allow 4 ulp
+                    slack = abs(dv[0]) - 4 * 2.220446049250313e-16 * max(abs(xc[0]), abs(case["xs"][0]))
+                    q = max(slack, 0.0) / (2 * H[0]) if H[0] > 0 else (0.0 if slack <= 0 else float("inf"))
+                else:
+                    q = quad_inv(H, n, dv)
+                if q is not None:
+                    _QMAX[0] = max(_QMAX[0], q)
+                    if q > 1 + 1e-6:
+                        return (f"ellipsoid: the minimiser left the ellipsoid: (x*-x)' H^-1 (x*-x) = {q!r} > 1 at a logged iterate "
+                                f"(n={n})")
     return None
 
 
@@ -412,6 +453,8 @@ def classify(op, kind, detail):
             return "bundle-overflow:m_size-reaches-capacity"
         if "reports converged" in detail:
             return f"{who}:converged-but-gap-over-bound"
+        if "left the ellipsoid" in detail:
+            return "ellipsoid:minimiser-left-the-ellipsoid"
         if "not a lower bound" in detail:
             return f"{who}:bundle-pair-not-a-lower-bound" if who != "ellipsoid" else "ellipsoid:not-a-subgradient"
         if "did not report converged" in detail:
